@@ -46,12 +46,13 @@ func run(e *harness.Env) {
 		"the same text inside the bottom band of every page at positions 13 pt apart}; (A) fragment sets x page size {Letter, A4, mixed} x fragment order {top-down, bottom-up} through Detect + FilterFragments on every page (exact attribution by fragment id), the same sequence a second time on the same page data, and the per-page loop Analyzer.AnalyzeWithHeaderFooterFiltering(pages, i); after every call the caller's fragment slices must equal a deep copy taken before; " +
 		"(B) PDFs x page size {Letter, mixed} x requested pages {all, each single page, each pair} x {ExcludeHeaders, ExcludeFooters, ExcludeHeadersAndFooters} x {Text, Lines, Paragraphs, ReadingOrder, Blocks, Analyze, Document, ToMarkdown}, " +
 		"filtered vs unfiltered result of the same call, plus selection independence: a removable-but-not-required line that the all-pages result removes (keeps) everywhere is removed (kept) in every partial selection (quick prunes (B): edge distance 80 only, top page numbers in 2 styles, no pairs of 4-page documents, single-side modes and mixed sizes on 3 APIs); " +
-		"(G) per-page fragment granularity {all word-level, all character-level, page 1 character-level among line-level pages and the reverse, page 1 word-level among line-level pages and the reverse} x P in 2..3 x header {same, same+sub, different} x 3 page-number settings x body {unique, repeated line inside the top / bottom band of page 2 only}, as fragment sets and as PDFs (clause 2 read per fragment on such pages); (C) DOCX/ODT header part x footer part x 11 near-miss/equal body paragraphs x position x mode x {Text, ToMarkdown}, PPTX 1..3 slides x all 16 subsets of {ftr, sldNum, dt, hdr} placeholders x body text equal to footer / slide number x mode x {Text, ToMarkdown}. " +
+		"(G) per-page fragment granularity {all word-level, all character-level, page 1 character-level among line-level pages and the reverse, page 1 word-level among line-level pages and the reverse} x P in 2..3 x header {same, same+sub, different} x 3 page-number settings x body {unique, repeated line inside the top / bottom band of page 2 only}, as fragment sets and as PDFs (clause 2 read per fragment on such pages); (V) vertical placement: the running header (top) / running footer line (bottom) moved outwards until its box touches the page edge or lies 0.5 / 1 / 2 / 3 % of the page height beyond it x P in 2..3 x page number {none, n at the bottom} x body {unique, numeric} x page size {Letter, A4, mixed (fragment sets only)}, as fragment sets and as PDFs; (C) DOCX/ODT header part x footer part x 11 near-miss/equal body paragraphs x position x mode x {Text, ToMarkdown}, PPTX 1..3 slides x all 16 subsets of {ftr, sldNum, dt, hdr} placeholders x body text equal to footer / slide number x mode x {Text, ToMarkdown}. " +
 		"distinct = descriptors; non-trivial = documents of >= 2 pages with a header, a page number or a non-plain body variant (office: with a header/footer part or placeholder)"
 	e.Assumptions = []string{
 		"internal/gen/pdfw writes one text fragment per logical line at the stated position (Helvetica 12 pt; Letter 612x792 or A4-high 612x842 pages)",
 		"margin band = 72 pt, same position = within 5 pt vertically / 10 pt horizontally, page-number patterns = the ten documented ones (documented defaults / comments of layout.HeaderFooterConfig and layout.isPageNumberPattern)",
-		"a fragment lies in a band when any part of its box [y, y+size] is closer than 72 pt to that page edge",
+		"a fragment lies in a band when any part of its box [y, y+size] is closer than 72 pt to that page edge (boxes touching or crossing the edge included)",
+		"contract read off the unchanged code for content beyond the page: a page whose highest box top exceeds the page height is measured from its content bounds by detection and filtering alike ('if maxY > pageHeight, assume inverted coordinates'), every other page (also content below y=0) from the page bounds; in both readings a running item at or beyond the edge is a repeated marginal line and is removed",
 		"the unfiltered result of each API is taken as the baseline; lines an API does not report even without exclusion are not judged",
 		"internal/gen/docxw, odtw, pptxw produce valid packages (header/footer parts referenced from the section / master page; placeholders by p:ph type)",
 	}
@@ -60,6 +61,7 @@ func run(e *harness.Env) {
 	partC(e)
 	partB(e)
 	partG(e)
+	partV(e)
 }
 
 // inQuick prunes part (B) for the quick tier (part (A) only drops the uniform A4 size): near-band distance 80 only, no page
@@ -1078,6 +1080,99 @@ func partG(e *harness.Env) {
 										continue
 									}
 									e.Pass(desc, true, "gran-"+out)
+								}
+							}
+						}
+					}
+				}
+			}
+		}
+	}
+}
+
+// ---- (V) vertical placement of the running items ---------------------------------------------------------
+//
+// The running header (top band) or running footer line (bottom band) is moved outwards until its box touches the
+// page edge or lies 0.5 / 1 / 2 / 3 % of the page height beyond it. Contract of the unchanged code (comments of
+// extractCandidates / FilterFragments): a page whose content reaches above the page height is measured from its content
+// bounds ("inverted coordinates") by detection AND filtering alike, any other page from the page bounds; in both
+// readings the running items sit at distance < 72 pt of the reference edge, so they are repeated marginal lines and
+// have to go, and nothing else may.
+func partV(e *harness.Env) {
+	dir := harness.Scratch()
+	defer os.RemoveAll(dir)
+	path := filepath.Join(dir, "vpos.pdf")
+	pns := []pnKind{{"none", "-", false}, {"n", "bottom", false}}
+	bodies := []bodyKind{{"unique", 0}, {"numeric", 0}}
+	quickAPIs := map[string]bool{"Text": true, "Lines": true, "Document": true}
+	for P := 2; P <= 3; P++ {
+		for _, item := range []struct{ hdr, side string }{{"same", "top"}, {"bottom-same", "bottom"}} {
+			for _, vp := range vposKinds {
+				for _, pn := range pns {
+					for _, body := range bodies {
+						for _, size := range []string{"letter", "a4", "mixed"} {
+							build := func() *ldoc {
+								d := buildDoc(P, item.hdr, pn, body, size)
+								d.shiftBand(item.side, vp.frac)
+								return d
+							}
+							for _, order := range []string{"top-down", "bottom-up"} {
+								desc := harness.D("part", "frag", "P", P, "hdr", item.hdr, "pn", pn.style, "pnpos", pn.pos, "body", body.name, "off", body.off, "size", size, "order", order, "vpos", vp.name)
+								if !e.Own(desc) {
+									continue
+								}
+								e.Begin(desc)
+								d := build()
+								var sig, det, out string
+								psig, pdet := harness.Guard(func() { sig, det, out = checkFragments(d, order) })
+								if psig != "" {
+									sig, det = psig, pdet
+								}
+								if sig != "" {
+									e.Fail(desc, sig, det, nil)
+									continue
+								}
+								e.Pass(desc, true, "frag-vpos:"+out)
+							}
+							if size == "mixed" {
+								continue // PDFs: both uniform page sizes
+							}
+							var d *ldoc
+							var data []byte
+							written := false
+							refCache = map[string]*refRun{}
+							for _, sub := range subsets(P) {
+								for _, mode := range []string{"headers", "footers", "both"} {
+									for _, api := range apis {
+										if !e.Thorough() && (mode != "both" || !quickAPIs[api.name] || len(sub) == 2) {
+											continue
+										}
+										desc := harness.D("part", "pdf", "P", P, "hdr", item.hdr, "pn", pn.style, "pnpos", pn.pos, "body", body.name, "off", body.off, "size", size, "pages", subsetName(sub), "mode", mode, "api", api.name, "vpos", vp.name)
+										if !e.Own(desc) {
+											continue
+										}
+										e.Begin(desc)
+										if d == nil {
+											d = build()
+											data = pdfOf(d)
+										}
+										if !written {
+											if err := os.WriteFile(path, data, 0o644); err != nil {
+												panic(err)
+											}
+											written = true
+										}
+										var sig, det, out string
+										psig, pdet := harness.Guard(func() { sig, det, out = checkPDF(d, path, sub, mode, api) })
+										if psig != "" {
+											sig, det = psig, pdet
+										}
+										if sig != "" {
+											e.Fail(desc, sig, det, map[string][]byte{"input.pdf": data})
+											continue
+										}
+										e.Pass(desc, true, "vpos-"+out)
+									}
 								}
 							}
 						}
